@@ -269,9 +269,25 @@ func (t *tagInterceptor) WrapStreamingHandler(next connect.StreamingHandlerFunc)
 			if o.Plan.InterceptorErr && t.tag == "i0" {
 				return o.Plan.HErr.build(ctx)
 			}
+			if o.Plan.InterceptorErrAfter && t.tag == "i0" {
+				// the handler has responded; the interceptor fails afterwards
+				if err := next(ctx, conn); err != nil {
+					return err
+				}
+				return o.Plan.HErr.build(ctx)
+			}
 		}
 		return next(ctx, conn)
 	}
+}
+
+// ownErr is the error the handler function itself returns (none when the
+// plan's error comes from an interceptor that fails after the handler).
+func (p *CallPlan) ownErr() *ErrPlan {
+	if p.InterceptorErrAfter {
+		return nil
+	}
+	return p.HErr
 }
 
 func (w *World) obsFromCtx(ctx context.Context) *CallObs {
@@ -642,7 +658,7 @@ func (w *World) serveUnary(ctx context.Context, req *connect.Request[Msg]) (*con
 		down := connect.NewClient[Msg, Msg](downDoer{}, "http://downstream.test/sim.v1.Down/Call")
 		_, _ = down.CallUnary(ctx, req)
 	}})
-	if err = o.Plan.HErr.build(ctx); err != nil {
+	if err = o.Plan.ownErr().build(ctx); err != nil {
 		return nil, err
 	}
 	var body []byte
@@ -674,7 +690,7 @@ func (w *World) serveClientStream(ctx context.Context, stream *connect.ClientStr
 	if err = recvFailure(o); err != nil {
 		return nil, err
 	}
-	if err = o.Plan.HErr.build(ctx); err != nil {
+	if err = o.Plan.ownErr().build(ctx); err != nil {
 		return nil, err
 	}
 	var body []byte
@@ -703,7 +719,7 @@ func (w *World) serveServerStream(ctx context.Context, req *connect.Request[Msg]
 	if err = recvFailure(o); err != nil {
 		return err
 	}
-	err = o.Plan.HErr.build(ctx)
+	err = o.Plan.ownErr().build(ctx)
 	return err
 }
 
@@ -729,7 +745,7 @@ func (w *World) serveBidi(ctx context.Context, stream *connect.BidiStream[Msg, M
 	if err = recvFailure(o); err != nil {
 		return err
 	}
-	err = o.Plan.HErr.build(ctx)
+	err = o.Plan.ownErr().build(ctx)
 	return err
 }
 
